@@ -29,6 +29,11 @@ def site_kind(t):
         return "index"
     if n in API and ("bytes::" in k or "bytes::" in tk or "core::slice" in k):
         return "api:" + n
+    # http::HeaderMap's infallible growth methods panic once the map would exceed its MAX_SIZE (24577 entries are enough):
+    # the number of received field lines is the peer's choice, so these are panic sites like the bytes API
+    if n in ("with_capacity", "append", "insert", "reserve", "entry", "extend") and "http::header::map::HeaderMap" in k:
+        return "api:HeaderMap::" + n
+    return None
     return None
 
 
@@ -190,6 +195,12 @@ def guard_for(path, ev_index, ev, kind, consts):
         # RangeFull never panics
         if idx is not None and idx[0] == "agg" and idx[1].endswith("RangeFull"):
             return "RangeFull"
+        return None
+    if kind.startswith("api:HeaderMap::"):
+        if kind.endswith("with_capacity") and argv:
+            c = expr.fold(argv[0], consts)
+            if c is not None and 0 <= c <= 24576:
+                return "constant capacity %d within http's limit" % c
         return None
     if kind.startswith("api:"):
         n = kind[4:]
